@@ -3,7 +3,7 @@
 From Coq Require Import List NArith Arith Bool.
 Import ListNotations.
 From RH Require Lex.LangLexer Lex.SynLexer.
-From RH Require Import Lex.LexGrammar Lex.Agree Lex.AgreeSweep Lex.AgreeSyn Lex.AgreeLang.
+From RH Require Import Lex.LexGrammar Lex.Agree Lex.AgreeSweep Lex.AgreeSyn Lex.AgreeSynEol Lex.AgreeLang Lex.AgreeLangEol.
 Open Scope N_scope.
 
 Lemma known_difference_split s : known_difference s = false ->
@@ -48,4 +48,36 @@ Definition ex_both : list N :=
    46; 53; 101; 45; 51; 41; 92; 101; 92; 34; 115; 34; 34; 116; 34; 32; 63; 47; 61; 32; 97; 108; 108; 39; 120].
 Lemma ex_both_ok : in_quantifier ex_both = true /\ known_difference ex_both = false /\ no_cr ex_both = true
   /\ length (match lexemes_lang ex_both with Some l => l | None => [] end) = 22%nat.
+Proof. vm_compute. repeat split. Qed.
+
+(* ---------- every input of the quantifier, line breaks LF, CR or CR LF ---------- *)
+Theorem lexemes_agree : forall s,
+  in_quantifier s = true -> known_difference s = false -> lexemes_lang s = lexemes_syn s.
+Proof.
+  intros s Q K. apply in_quantifier_split in Q as (L1 & CL & CS & ND & NP).
+  apply known_difference_split in K as (K1 & K2 & K3 & K4).
+  rewrite (lang_is_spec_eol s L1 CL ND NP K1 K4). apply syn_is_spec_eol; assumption.
+Qed.
+Theorem lexemes_are_spec_eol : forall s,
+  in_quantifier s = true -> known_difference s = false ->
+  exists l, split_spec LangLexer.keywords_2008 s = Some l
+            /\ lexemes_lang s = Some (map norm_eol l) /\ lexemes_syn s = Some (map norm_eol l).
+Proof.
+  intros s Q K. pose proof (lexemes_agree s Q K) as E.
+  apply in_quantifier_split in Q as (L1 & CL & CS & ND & NP).
+  apply known_difference_split in K as (K1 & K2 & K3 & K4).
+  pose proof (lang_is_spec_eol s L1 CL ND NP K1 K4) as EL.
+  destruct (split_spec LangLexer.keywords_2008 s) as [l|] eqn:SP.
+  - exists l. cbn [option_map] in EL. split; [reflexivity|]. split; [exact EL|]. rewrite <- E. exact EL.
+  - exfalso. cbn [option_map] in EL. unfold clean_lang, lexemes_lang in *.
+    destruct (lang_result s) as [[c l]|]; [discriminate EL|discriminate CL].
+Qed.
+
+(* a text with all three kinds of line break that satisfies the hypotheses *)
+Definition ex_eol : list N :=
+  [97; 32; 60; 61; 32; 39; 13; 39; 32; 38; 32; 34; 120; 121; 34; 32; 59; 13; 10; 45; 45; 32; 99; 13; 47; 42; 32; 117; 13;
+   10; 118; 32; 42; 47; 32; 98; 39; 40; 39; 10; 39; 41; 32; 45; 45; 32; 100; 13; 10; 49; 54; 35; 70; 35; 13; 120; 34;
+   48; 49; 34; 13; 39; 13; 13; 39].
+Lemma ex_eol_ok : in_quantifier ex_eol = true /\ known_difference ex_eol = false /\ no_cr ex_eol = false
+  /\ length (match lexemes_lang ex_eol with Some l => l | None => [] end) = 15%nat.
 Proof. vm_compute. repeat split. Qed.
